@@ -1,0 +1,27 @@
+//go:build verif
+
+// Package verifhooks re-exports internal packages to the verification
+// harness (a separate module, which cannot import internal/...). It exists
+// only under the build tag "verif".
+package verifhooks
+
+import (
+	"time"
+
+	"github.com/go-git/go-git/v6/internal/sharedfile"
+	"github.com/go-git/go-git/v6/x/fdpool"
+)
+
+// SharedFile re-exports sharedfile.SharedFile.
+type SharedFile = sharedfile.SharedFile
+
+// ReadAtCloser re-exports sharedfile.ReadAtCloser.
+type ReadAtCloser = sharedfile.ReadAtCloser
+
+// SharedFileState re-exports sharedfile.VerifState.
+type SharedFileState = sharedfile.VerifState
+
+// NewSharedFile re-exports sharedfile.NewWithPool (pool may be nil).
+func NewSharedFile(open func() (ReadAtCloser, error), grace time.Duration, pool *fdpool.Pool) *SharedFile {
+	return sharedfile.NewWithPool(open, grace, pool)
+}
